@@ -12,6 +12,8 @@ package main
 
 import (
 	"fmt"
+	"go/token"
+	"go/types"
 	"sort"
 	"strings"
 
@@ -160,4 +162,120 @@ func fnNameMatches(spec string, fn *ssa.Function) bool {
 		}
 	}
 	return spec == name
+}
+
+// deferredErrorStores (C18): a deferred function that assigns to the enclosing
+// function's error result (`defer func() { err = f.Close() }()`) runs after the
+// result has been set; unless the assignment only happens when the result is
+// still nil, an earlier error — a failed write, say — is replaced by the later
+// call's nil and the run reports success. Every store of a deferred closure into
+// a captured error variable must sit behind a test that the variable is nil.
+// Abstract-mode obligation over go/ssa, one per store.
+func (w *World) deferredErrorStores(id string, opts *RunOpts, ex *Extra) {
+	var fns []*ssa.Function
+	for fn := range ssautil.AllFunctions(w.prog) {
+		if fn.Blocks == nil || fn.Synthetic != "" || fn.Parent() == nil {
+			continue
+		}
+		p := fnPkgPath(fn.Parent())
+		for q := fn.Parent(); q != nil; q = q.Parent() {
+			if q.Pkg != nil {
+				p = fnPkgPath(q)
+			}
+		}
+		if p == w.modPath || strings.HasPrefix(p, w.modPath+"/pkg/") || strings.HasPrefix(p, w.modPath+"/internal/") {
+			fns = append(fns, fn)
+		}
+	}
+	sort.Slice(fns, func(i, j int) bool { return fns[i].String() < fns[j].String() })
+	isDeferred := func(cl *ssa.Function) bool {
+		par := cl.Parent()
+		for _, b := range par.Blocks {
+			for _, ins := range b.Instrs {
+				d, ok := ins.(*ssa.Defer)
+				if !ok {
+					continue
+				}
+				if mc, ok := d.Call.Value.(*ssa.MakeClosure); ok && mc.Fn == cl {
+					return true
+				}
+				if f, ok := d.Call.Value.(*ssa.Function); ok && f == cl {
+					return true
+				}
+			}
+		}
+		return false
+	}
+	sites, guarded := 0, 0
+	for _, cl := range fns {
+		if !isDeferred(cl) {
+			continue
+		}
+		k := 0
+		for _, b := range cl.Blocks {
+			for _, ins := range b.Instrs {
+				st, ok := ins.(*ssa.Store)
+				if !ok {
+					continue
+				}
+				fv, ok := st.Addr.(*ssa.FreeVar)
+				if !ok {
+					continue
+				}
+				pt, ok := fv.Type().Underlying().(*types.Pointer)
+				if !ok || pt.Elem().String() != "error" {
+					continue
+				}
+				if c, isConst := st.Val.(*ssa.Const); isConst && c.Value == nil {
+					continue // clearing the error is not what this is about
+				}
+				sites++
+				ex.Count++
+				name := fmt.Sprintf("%s/deferred-store-keeps-an-earlier-error#%d", shortFn(cl.String()), k)
+				k++
+				// guarded: some dominator block ends in `if *fv == nil` and b is reached through its true edge
+				ok2 := false
+				for _, d := range cl.Blocks {
+					iff, isIf := d.Instrs[len(d.Instrs)-1].(*ssa.If)
+					if !isIf || !d.Dominates(b) || d == b {
+						continue
+					}
+					bo, isB := iff.Cond.(*ssa.BinOp)
+					if !isB || (bo.Op != token.EQL && bo.Op != token.NEQ) {
+						continue
+					}
+					isLoadOfFV := func(v ssa.Value) bool {
+						u, ok := v.(*ssa.UnOp)
+						return ok && u.Op == token.MUL && u.X == ssa.Value(fv)
+					}
+					isNil := func(v ssa.Value) bool {
+						c, ok := v.(*ssa.Const)
+						return ok && c.Value == nil
+					}
+					if !(isLoadOfFV(bo.X) && isNil(bo.Y)) && !(isLoadOfFV(bo.Y) && isNil(bo.X)) {
+						continue
+					}
+					succ := d.Succs[0]
+					if bo.Op == token.NEQ {
+						succ = d.Succs[1]
+					}
+					if (succ == b || succ.Dominates(b)) && len(succ.Preds) == 1 {
+						ok2 = true
+					}
+				}
+				if ok2 {
+					guarded++
+					ex.Discharged++
+					continue
+				}
+				p := w.prog.Fset.Position(st.Pos())
+				msg := fmt.Sprintf("the deferred function %s assigns to the captured error variable %s at %s:%d without testing that it is still nil: an error set before the function returned (a failed write) is replaced by this later value, and the caller sees success", shortFn(cl.String()), fv.Name(), strings.TrimPrefix(p.Filename, w.repo+"/"), p.Line)
+				path := writeTextReplay(opts, id, name, msg+"\n(abstract-mode obligation over go/ssa)", "", "", "bin/govc check "+id)
+				ex.Lines = append(ex.Lines, fmt.Sprintf("VIOLATION property=%s replay=%s no-failing-input-found", id, path))
+				ex.Lines = append(ex.Lines, "  failed obligation: "+name+": "+msg)
+				ex.Violations++
+			}
+		}
+	}
+	ex.Coverage["deferred_error_stores"] = map[string]interface{}{"stores_into_a_captured_error_by_deferred_functions": sites, "behind_a_nil_test": guarded}
 }
